@@ -360,10 +360,12 @@ class Subject:
         elif k == 'K':
             a.add_sink(make_sink(idx, self.is_async, log), self.sp[op[1]])
         elif k == 'F':
+            # the prefix may be registered with a trailing slash: the same route (the documented normalisation)
+            pfx = '/' + nm[op[1]] + ('/' if len(op) > 4 else '')
             if op[3]:
-                a.add_static_route('/' + nm[op[1]], self.dirs[op[2]], fallback_filename=nm['file'])
+                a.add_static_route(pfx, self.dirs[op[2]], fallback_filename=nm['file'])
             else:
-                a.add_static_route('/' + nm[op[1]], self.dirs[op[2]])
+                a.add_static_route(pfx, self.dirs[op[2]])
         elif k == 'B':
             if op[1] == 'sink':
                 a.add_sink(make_sink(idx, not self.is_async, log), self.sp['root'])
@@ -454,7 +456,8 @@ def alphabets():
     for p in ('lit', 'oth'):
         for d in (0, 1):
             full.append(('F', p, d, False))
-    full += [('F', 'oth', 1, True), ('F', 'lit', 0, True), ('B', 'sink'), ('B', 'lit')]
+    full += [('F', 'oth', 1, True), ('F', 'lit', 0, True), ('B', 'sink'), ('B', 'lit'),
+             ('F', 'oth', 0, True, 'slash'), ('F', 'lit', 1, False, 'slash')]
 
     mid = [('R', 'lit', ('GET',)), ('R', 'lit', ('GET', 'POST')), ('R', 'lit', ('LOCK', 'WEBSOCKET')), ('R', 'lit', ()),
            ('R', 'litf', ('GET',)), ('R', 'litf', ('GET', 'POST')), ('R', 'litf', ('GET', 'OPTIONS')),
@@ -463,7 +466,7 @@ def alphabets():
            ('S', 'litf', 'X', True), ('S', 'litf', 'N', True), ('S', 'lit', 'PX', False)]
     mid += [('K', key) for key in ('root', 'lit', 'litc', 'num', 'rest', 'oth', 'opt')]
     mid += [('F', 'lit', 0, False), ('F', 'lit', 1, False), ('F', 'oth', 0, False), ('F', 'oth', 1, False),
-            ('F', 'oth', 1, True), ('B', 'sink')]
+            ('F', 'oth', 1, True), ('B', 'sink'), ('F', 'oth', 0, True, 'slash')]
 
     core = [('R', 'lit', ('GET',)), ('R', 'lit', ('LOCK', 'WEBSOCKET')), ('R', 'litf', ('GET', 'POST')),
             ('R', 'f', ('GET', 'OPTIONS')),
